@@ -199,6 +199,13 @@ func c09Pair(r *fw.Rand, mode int) (*gen.Spec, *gen.Spec) {
 	case 4: // identical
 		b = cloneSpec(a)
 	}
+	if a.Tag == "FAM" && r.Bool() {
+		// role nodes that exist on one side only (they cannot be created without their family)
+		b.Kids = append(b.Kids, &gen.Spec{Tag: "CHIL", Value: "@I77@", Kids: []*gen.Spec{{Tag: "NOTE", Value: "right only"}}})
+		if r.Bool() {
+			a.Kids = append(a.Kids, &gen.Spec{Tag: "WIFE", Value: "@I88@"})
+		}
+	}
 	return a, b
 }
 
